@@ -719,31 +719,27 @@ func (s *Service) ClientClose(client *ClientService) {
 	for i := range s.clients {
 		if s.clients[i] == client {
 
-			// remove registered agents
+			// remove every agent this client registered
+			var agents []*AgentService
 			for j := range s.Agents {
-				if s.Agents[j] != nil {
-					if s.Agents[j].client == client {
-						logger.Warn(fmt.Sprintf("%v unregistered agent %v", "["+colors.BoldWhite("SERVICE")+"]", "[Name: "+colors.Blue(s.Agents[j].Name)+"]"))
-
-						// remove from list
-						s.Agents = append(s.Agents[:j], s.Agents[j+1:]...)
-						break
-					}
+				if s.Agents[j] != nil && s.Agents[j].client == client {
+					logger.Warn(fmt.Sprintf("%v unregistered agent %v", "["+colors.BoldWhite("SERVICE")+"]", "[Name: "+colors.Blue(s.Agents[j].Name)+"]"))
+					continue
 				}
+				agents = append(agents, s.Agents[j])
 			}
+			s.Agents = agents
 
-			// remove registered listeners
+			// remove every listener this client registered
+			var listeners []*ListenerService
 			for j := range s.Listeners {
-				if s.Listeners[j] != nil {
-					if s.Listeners[j].client == client {
-						logger.Warn(fmt.Sprintf("%v unregistered a new listener %v %v", "["+colors.BoldWhite("SERVICE")+"]", "[Name: "+colors.Blue(s.Listeners[j].Name)+"]", "[Agent: "+colors.Blue(s.Listeners[j].Agent)+"]"))
-
-						// remove from list
-						s.Listeners = append(s.Listeners[:j], s.Listeners[j+1:]...)
-						break
-					}
+				if s.Listeners[j] != nil && s.Listeners[j].client == client {
+					logger.Warn(fmt.Sprintf("%v unregistered a new listener %v %v", "["+colors.BoldWhite("SERVICE")+"]", "[Name: "+colors.Blue(s.Listeners[j].Name)+"]", "[Agent: "+colors.Blue(s.Listeners[j].Agent)+"]"))
+					continue
 				}
+				listeners = append(listeners, s.Listeners[j])
 			}
+			s.Listeners = listeners
 
 			// close client connection
 			if s.clients[i].Conn != nil {
@@ -755,6 +751,7 @@ func (s *Service) ClientClose(client *ClientService) {
 
 			// remove from list
 			s.clients = append(s.clients[:i], s.clients[i+1:]...)
+			break
 		}
 	}
 
